@@ -10,6 +10,8 @@ vlib.gfxutil; before and after each one the active page is snapshotted and all o
 compared with their snapshots. The oracle tracks only the viewport rectangle (set by successful
 VIEW statements) and the active page number.
 """
+import random
+
 from hypothesis import strategies as st
 
 from vlib.core import Result, Unit
@@ -90,7 +92,7 @@ def check_case(case):
                 key = gfxutil.escaped_key(o) if o.kind == 'escaped' else 'not-silent.' + kind
                 if (kind == 'page' and view != (0, 0, W - 1, H - 1) and o.kind == 'escaped'
                         and o.exc == 'AssertionError' and (o.frame or '').endswith(':set_page')):
-                    # finding: page switch while a viewport is active (findings_proposed/C30.json)
+                    # finding (fixed fc57e203): page switch while a viewport is active
                     key = 'page.switch-with-view.AssertionError'
                 res.fail(key, '%s in %s: %r %s' % (op['t'], mode.name, o, o.tb or ''))
                 break
@@ -200,17 +202,46 @@ def check_text(case):
 
 # --------------------------------------------------------------------------------------------
 # generators
+#
+# Histories are produced by a deterministic pseudo-random builder driven by an integer seed that
+# Hypothesis draws (plus a length n, so that failing histories shrink to their shortest failing
+# prefix). Building the statements from nested Hypothesis draws was tried first and gave 4x fewer
+# distinct statements per 300 cases (the engine's span-mutation phase keeps re-using fragments).
 
 MODE_WEIGHTED = gfxutil.LOWRES * 3 + gfxutil.HIRES
 VERBS = ['PSET', 'PRESET', 'AND', 'OR', 'XOR', None]
 
 
+class _R(object):
+    def __init__(self, seed):
+        self.r = random.Random(seed)
+
+    def pick(self, seq):
+        return seq[self.r.randrange(len(seq))]
+
+    def int(self, a, b):
+        if b < a:
+            return a
+        return self.r.randint(a, b)
+
+    def one_in(self, n):
+        return self.r.randrange(n) == 0
+
+    def coin(self):
+        return self.r.random() < 0.5
+
+
 def _num(v):
     if isinstance(v, float):
         if v == int(v) and abs(v) >= 1e6:
-            return '%dE%d' % (int(v / 10 ** (len(str(int(abs(v)))) - 1)), len(str(int(abs(v)))) - 1)
+            digits = len(str(int(abs(v)))) - 1
+            return '%dE%d' % (int(v / 10 ** digits), digits)
         return ('%.3f' % v).rstrip('0').rstrip('.') or '0'
     return str(v)
+
+
+def _p(x, y):
+    return '(%s,%s)' % (_num(x), _num(y))
 
 
 class _State(object):
@@ -221,6 +252,9 @@ class _State(object):
         self.view = (0, 0, W - 1, H - 1)
         self.vscreen = True          # statement coordinates are absolute
         self.win = None              # (x0, y0, x1, y1, screenflag)
+
+    def full(self):
+        return self.view == (0, 0, self.W - 1, self.H - 1)
 
     def axis_bounds(self, axis):
         """(a, b, sa, sb): viewport and screen extent along an axis in statement coordinates."""
@@ -245,106 +279,98 @@ class _State(object):
         return round(w0 + f * (w1 - w0), 3)
 
 
-@st.composite
-def _axis(draw, state, axis):
+AXIS_CLASSES = (['in'] * 8 + ['edge'] * 3 + ['out1'] * 3 + ['scr'] * 2 + ['scrout'] * 2 +
+                ['far'] * 2 + ['ovf'])
+
+
+def _axis(r, state, axis):
     a, b, sa, sb = state.axis_bounds(axis)
-    cls = draw(st.sampled_from(['in'] * 8 + ['edge'] * 3 + ['out1'] * 3 + ['scr'] * 2 +
-                               ['scrout'] * 2 + ['far'] * 2 + ['ovf']))
+    cls = r.pick(AXIS_CLASSES)
     if cls == 'in':
-        v = draw(st.integers(a, b))
+        v = r.int(a, b)
     elif cls == 'edge':
-        v = draw(st.sampled_from([a, b]))
+        v = r.pick([a, b])
     elif cls == 'out1':
-        v = draw(st.sampled_from([a - 1, b + 1, a - 2, b + 2]))
+        v = r.pick([a - 1, b + 1, a - 2, b + 2])
     elif cls == 'scr':
-        v = draw(st.sampled_from([sa, sb]))
+        v = r.pick([sa, sb])
     elif cls == 'scrout':
-        v = draw(st.sampled_from([sa - 1, sb + 1]))
+        v = r.pick([sa - 1, sb + 1])
     elif cls == 'far':
-        v = draw(st.sampled_from([32767, -32768, -32767, 20000, -20000, 1000, -1000]))
-        return v, cls
+        return r.pick([32767, -32768, -32767, 20000, -20000, 1000, -1000]), cls
     else:
-        v = draw(st.sampled_from([40000, -40000, 1e9, -1e9, 32768, -32769]))
-        return v, cls
+        return r.pick([40000, -40000, 1e9, -1e9, 32768, -32769]), cls
     return state.to_logical(axis, v), cls
 
 
-@st.composite
-def _pt(draw, state):
-    x, cx = draw(_axis(state, 0))
-    y, cy = draw(_axis(state, 1))
-    ext = cx != 'in' or cy != 'in'
-    big = cx == 'ovf' or cy == 'ovf'
-    return x, y, ext, big
+def _pt(r, state):
+    x, cx = _axis(r, state, 0)
+    y, cy = _axis(r, state, 1)
+    return x, y, (cx != 'in' or cy != 'in'), (cx == 'ovf' or cy == 'ovf')
 
 
-def _p(x, y):
-    return '(%s,%s)' % (_num(x), _num(y))
+def _attr(r, N):
+    k = r.int(0, 9)
+    if k < 6:
+        return r.int(0, N - 1)
+    if k < 8:
+        return None
+    return r.pick([N, 17, 255, N - 1])
 
 
-@st.composite
-def _attr(draw, N):
-    return draw(st.one_of(st.integers(0, N - 1), st.integers(1, N - 1), st.none(),
-                          st.sampled_from([N, 17, 255])))
-
-
-@st.composite
-def _draw_string(draw, state):
+def _draw_string(r, state):
     toks = []
-    for _ in range(draw(st.integers(1, 8))):
-        k = draw(st.sampled_from(['mv', 'mv', 'mv', 'mv', 'M', 'M', 'S', 'A', 'TA', 'C', 'P']))
+    for _ in range(r.int(1, 8)):
+        k = r.pick(['mv', 'mv', 'mv', 'mv', 'M', 'M', 'S', 'A', 'TA', 'C', 'P'])
         if k == 'mv':
-            pre = draw(st.sampled_from(['', '', '', 'B', 'N', 'BN']))
-            n = draw(st.one_of(st.just(''), st.integers(0, 40), st.integers(0, 800),
-                               st.sampled_from([20000, 32767, 40000, 99999, -5, -300, -20000])))
-            toks.append('%s%s%s' % (pre, draw(st.sampled_from('UDLREFGH')), n))
+            pre = r.pick(['', '', '', 'B', 'N', 'BN'])
+            n = r.pick(['', r.int(0, 40), r.int(0, 800),
+                        r.pick([20000, 32767, 40000, 99999, -5, -300, -20000])])
+            toks.append('%s%s%s' % (pre, r.pick('UDLREFGH'), n))
         elif k == 'M':
-            pre = draw(st.sampled_from(['', '', 'B', 'N']))
-            if draw(st.booleans()):
+            pre = r.pick(['', '', 'B', 'N'])
+            if r.coin():
                 a, b, sa, sb = state.axis_bounds(0)
-                x = draw(st.sampled_from([a, b, a - 1, b + 1, sa, sb + 1, (a + b) // 2, 9999]))
+                x = r.pick([a, b, a - 1, b + 1, sa, sb + 1, (a + b) // 2, 9999, r.int(a, b)])
                 a, b, sa, sb = state.axis_bounds(1)
-                y = draw(st.sampled_from([a, b, a - 1, b + 1, sa, sb + 1, (a + b) // 2, 9999]))
+                y = r.pick([a, b, a - 1, b + 1, sa, sb + 1, (a + b) // 2, 9999, r.int(a, b)])
                 toks.append('%sM%d,%d' % (pre, x, y))
             else:
-                x = draw(st.sampled_from([0, 3, 50, 700, 9999]))
-                y = draw(st.sampled_from([0, 3, 50, 700, 9999]))
-                toks.append('%sM%s%d,%s%d' % (pre, draw(st.sampled_from('+-')), x,
-                                              draw(st.sampled_from(['', '-', '+'])), y))
+                x = r.pick([0, 3, 50, 700, 9999, r.int(0, 100)])
+                y = r.pick([0, 3, 50, 700, 9999, r.int(0, 100)])
+                toks.append('%sM%s%d,%s%d' % (pre, r.pick('+-'), x, r.pick(['', '-', '+']), y))
         elif k == 'S':
-            toks.append('S%d' % draw(st.sampled_from([1, 3, 4, 7, 16, 100, 255])))
+            toks.append('S%d' % r.pick([1, 3, 4, 7, 16, 100, 255]))
         elif k == 'A':
-            toks.append('A%d' % draw(st.integers(0, 3)))
+            toks.append('A%d' % r.int(0, 3))
         elif k == 'TA':
-            toks.append('TA%d' % draw(st.sampled_from([0, 30, 45, 90, -90, 123, 180, 270, -360])))
+            toks.append('TA%d' % r.pick([0, 30, 45, 90, -90, 123, 180, 270, -360]))
         elif k == 'C':
-            toks.append('C%d' % draw(st.integers(0, 3)))
+            toks.append('C%d' % r.int(0, 3))
         else:
-            toks.append('P%d,%d' % (draw(st.integers(0, 3)), draw(st.integers(0, 3))))
-    return draw(st.sampled_from(['', ';', ' '])).join(toks)
+            toks.append('P%d,%d' % (r.int(0, 3), r.int(0, 3)))
+    return r.pick(['', ';', ' ']).join(toks)
 
 
-@st.composite
-def _view_op(draw, state, N, force_small=False):
+def _view_op(r, state, N, force_small=False):
     W, H = state.W, state.H
-    if not force_small and draw(st.integers(0, 9)) == 0:
+    if not force_small and r.one_in(10):
         state.view = (0, 0, W - 1, H - 1)
         state.vscreen = True
         return {'k': 'view-reset', 't': 'VIEW'}
-    # leave room for the border most of the time; sometimes touch the screen edge
-    x0 = draw(st.one_of(st.integers(0, W - 2), st.sampled_from([0, 1, 8])))
-    y0 = draw(st.one_of(st.integers(0, H - 2), st.sampled_from([0, 1, 8])))
-    x1 = draw(st.one_of(st.integers(x0 + 1, W - 1), st.integers(x0 + 1, min(W - 1, x0 + 60)),
-                        st.just(W - 1)))
-    y1 = draw(st.one_of(st.integers(y0 + 1, H - 1), st.integers(y0 + 1, min(H - 1, y0 + 40)),
-                        st.just(H - 1)))
-    if draw(st.integers(0, 7)) == 0:
+    x0 = r.pick([r.int(0, W - 2), r.int(0, W - 2), 0, 1, 8])
+    y0 = r.pick([r.int(0, H - 2), r.int(0, H - 2), 0, 1, 8])
+    x1 = r.pick([r.int(x0 + 1, W - 1), r.int(x0 + 1, min(W - 1, x0 + 60)),
+                 r.int(x0 + 1, min(W - 1, x0 + 60)), W - 1])
+    y1 = r.pick([r.int(y0 + 1, H - 1), r.int(y0 + 1, min(H - 1, y0 + 40)),
+                 r.int(y0 + 1, min(H - 1, y0 + 40)), H - 1])
+    if r.one_in(8):
         x0, x1 = x1, x0
-    if draw(st.integers(0, 7)) == 0:
+    if r.one_in(8):
         y0, y1 = y1, y0
-    scr = draw(st.booleans())
-    fill = draw(st.one_of(st.none(), st.integers(0, N - 1)))
-    border = draw(st.one_of(st.none(), st.integers(0, N - 1), st.integers(1, N - 1)))
+    scr = r.coin()
+    fill = r.pick([None, None, r.int(0, N - 1)])
+    border = r.pick([None, r.int(0, N - 1), r.int(1, N - 1)])
     t = 'VIEW %s(%d,%d)-(%d,%d)' % ('SCREEN ' if scr else '', x0, y0, x1, y1)
     if fill is not None or border is not None:
         t += ',%s' % ('' if fill is None else fill)
@@ -355,50 +381,46 @@ def _view_op(draw, state, N, force_small=False):
     return {'k': 'view', 't': t, 'rect': [x0, y0, x1, y1]}
 
 
-@st.composite
-def _ops(draw, state, N, kind, npages):
+def _ops(r, state, N, kind, npages):
     """One macro: a list of op dicts."""
     if kind == 'view':
-        return [draw(_view_op(state, N))]
+        return [_view_op(r, state, N)]
     if kind == 'window':
-        if draw(st.integers(0, 5)) == 0:
+        if r.one_in(6):
             state.win = None
             return [{'k': 'window', 't': 'WINDOW'}]
-        x0 = draw(st.sampled_from([0, -1, -100, 10, -1000.5, 0.25]))
-        y0 = draw(st.sampled_from([0, -1, -100, 10, -1000.5, 0.25]))
-        x1 = x0 + draw(st.sampled_from([1, 2, 100, 320, 1000, 30000, 0.5]))
-        y1 = y0 + draw(st.sampled_from([1, 2, 100, 200, 1000, 30000, 0.5]))
-        scr = draw(st.booleans())
+        x0 = r.pick([0, -1, -100, 10, -1000.5, 0.25])
+        y0 = r.pick([0, -1, -100, 10, -1000.5, 0.25])
+        x1 = x0 + r.pick([1, 2, 100, 320, 1000, 30000, 0.5])
+        y1 = y0 + r.pick([1, 2, 100, 200, 1000, 30000, 0.5])
+        scr = r.coin()
         state.win = (x0, y0, x1, y1, scr)
         return [{'k': 'window', 't': 'WINDOW %s%s-%s' % ('SCREEN ' if scr else '',
                                                         _p(x0, y0), _p(x1, y1))}]
     if kind == 'page':
-        a, v = draw(st.integers(0, 7)), draw(st.integers(0, 7))
+        a, v = r.int(0, npages - 1), r.int(0, npages - 1)
         ops = []
-        direct = draw(st.integers(0, 7)) == 0
-        if not direct and state.view != (0, 0, state.W - 1, state.H - 1):
-            # finding page.switch-with-view: switching pages with an active viewport escapes with
-            # an AssertionError; most histories reset the viewport first so that the search goes on
+        if r.one_in(3) and not state.full():
+            # finding page.switch-with-view (fixed fc57e203): switching pages with an active
+            # viewport escaped with an AssertionError. Two thirds of the page switches now happen
+            # with the viewport still set; the rest reset it first.
             ops.append({'k': 'view-reset', 't': 'VIEW'})
-        ops.append({'k': 'page', 't': 'SCREEN ,,%d,%d' % (a % npages, v % npages), 'ap': a % npages,
-                    'vp': v % npages})
-        ops.append(draw(_view_op(state, N, force_small=draw(st.booleans()))))
+        ops.append({'k': 'page', 't': 'SCREEN ,,%d,%d' % (a, v), 'ap': a, 'vp': v})
+        ops.append(_view_op(r, state, N, force_small=r.coin()))
         return ops
     if kind in ('pset', 'preset'):
-        x, y, ext, big = draw(_pt(state))
-        c = draw(_attr(N))
-        step = draw(st.integers(0, 4)) == 0
-        t = '%s %s%s%s' % (kind.upper(), 'STEP' if step else '', _p(x, y),
+        x, y, ext, big = _pt(r, state)
+        c = _attr(r, N)
+        t = '%s %s%s%s' % (kind.upper(), 'STEP' if r.one_in(5) else '', _p(x, y),
                            '' if c is None else ',%d' % c)
         return [{'k': 'pset', 't': t, 'x': ext, 'big': big}]
     if kind == 'line':
-        x0, y0, e0, b0 = draw(_pt(state))
-        x1, y1, e1, b1 = draw(_pt(state))
-        c = draw(_attr(N))
-        shape = draw(st.sampled_from(['', '', 'B', 'BF']))
-        style = draw(st.one_of(st.none(), st.none(), st.sampled_from([-21846, 255, 1, -32768,
-                                                                      0x0F0F, 0])))
-        form = draw(st.sampled_from(['abs', 'abs', 'abs', 'last', 'step1', 'step01']))
+        x0, y0, e0, b0 = _pt(r, state)
+        x1, y1, e1, b1 = _pt(r, state)
+        c = _attr(r, N)
+        shape = r.pick(['', '', 'B', 'BF'])
+        style = r.pick([None, None, None, -21846, 255, 1, -32768, 0x0F0F, 0])
+        form = r.pick(['abs', 'abs', 'abs', 'abs', 'last', 'step1', 'step01'])
         if form == 'last':
             t = 'LINE -%s' % _p(x1, y1)
             e0 = b0 = False
@@ -417,139 +439,143 @@ def _ops(draw, state, N, kind, npages):
             tail += ',%d' % style
         return [{'k': 'line' + shape.lower(), 't': t + tail, 'x': e0 or e1, 'big': b0 or b1}]
     if kind == 'circle':
-        x, y, ext, big = draw(_pt(state))
+        x, y, ext, big = _pt(r, state)
         a, b, _, _ = state.axis_bounds(0)
         span = max(2, b - a)
-        r = draw(st.one_of(st.integers(0, 30), st.integers(0, span), st.integers(0, 2 * span),
-                           st.sampled_from([span // 2, span, 1000, 5000])))
-        if draw(st.integers(0, 40)) == 0:
-            r = draw(st.sampled_from([20000, 32767, 40000]))
-            big = big or r > 32767
+        rad = r.pick([r.int(0, 30), r.int(0, span), r.int(0, 2 * span), span // 2, span, 1000, 5000])
+        if r.one_in(40):
+            rad = r.pick([20000, 32767, 40000])
+            big = big or rad > 32767
         if state.win is not None:
             wx = abs(state.win[2] - state.win[0])
-            r = round(r * wx / float(span), 3)
-        c = draw(_attr(N))
-        ang = st.one_of(st.none(), st.sampled_from([0, 0.5, 1.57, 3.14, 4.5, 6.28, -0.5, -1.57,
-                                                    -3.14, -6.28, 2.0, -2.0]))
-        s0, s1 = draw(ang), draw(ang)
-        asp = draw(st.one_of(st.none(), st.none(), st.sampled_from([0.1, 0.5, 1, 2, 10, 0.833])))
-        parts = [_num(r), '' if c is None else str(c), '' if s0 is None else _num(float(s0)),
+            rad = round(rad * wx / float(span), 3)
+        c = _attr(r, N)
+        angles = [None, None, None, 0, 0.5, 1.57, 3.14, 4.5, 6.28, -0.5, -1.57, -3.14, -6.28, 2.0, -2.0]
+        s0, s1 = r.pick(angles), r.pick(angles)
+        asp = r.pick([None, None, None, 0.1, 0.5, 1, 2, 10, 0.833])
+        parts = [_num(rad), '' if c is None else str(c), '' if s0 is None else _num(float(s0)),
                  '' if s1 is None else _num(float(s1)), '' if asp is None else _num(float(asp))]
         while parts and parts[-1] == '':
             parts.pop()
-        step = draw(st.integers(0, 5)) == 0
-        t = 'CIRCLE %s%s,%s' % ('STEP' if step else '', _p(x, y), ','.join(parts))
-        return [{'k': 'circle', 't': t, 'x': bool(ext or r > 3), 'big': big}]
+        t = 'CIRCLE %s%s,%s' % ('STEP' if r.one_in(6) else '', _p(x, y), ','.join(parts))
+        return [{'k': 'circle', 't': t, 'x': bool(ext or rad > 3), 'big': big}]
     if kind == 'paint':
-        x, y, ext, big = draw(_pt(state))
-        tiled = draw(st.integers(0, 3)) == 0
+        x, y, ext, big = _pt(r, state)
+        tiled = r.one_in(4)
         if tiled:
-            tile = draw(st.lists(st.sampled_from([0, 255, 0x55, 0xAA, 0x81, 0x0F, 1, 0x80, 0x33]),
-                                 min_size=1, max_size=8))
+            tile = [r.pick([0, 255, 0x55, 0xAA, 0x81, 0x0F, 1, 0x80, 0x33]) for _ in range(r.int(1, 8))]
             fill = '+'.join('CHR$(%d)' % b for b in tile)
         else:
-            c = draw(_attr(N))
+            c = _attr(r, N)
             fill = '' if c is None else str(c)
-        border = draw(st.one_of(st.none(), st.integers(0, N - 1)))
-        t = 'PAINT %s' % _p(x, y)
+        border = r.pick([None, r.int(0, N - 1)])
+        t = 'PAINT %s%s' % ('STEP' if r.one_in(8) else '', _p(x, y))
         if fill or border is not None:
             t += ',' + fill
         if border is not None:
             t += ',%d' % border
-            if tiled and draw(st.integers(0, 3)) == 0:
-                t += ',CHR$(%d)' % draw(st.sampled_from([0, 255, 0x55, 0x0F]))
+            if tiled and r.one_in(4):
+                t += ',CHR$(%d)' % r.pick([0, 255, 0x55, 0x0F])
         return [{'k': 'paint' + ('-tile' if tiled else ''), 't': t, 'x': True, 'big': big}]
     if kind == 'draw':
         ops = []
-        if draw(st.booleans()):
-            x, y, ext, big = draw(_pt(state))
+        if r.coin():
+            x, y, ext, big = _pt(r, state)
             ops.append({'k': 'pset', 't': 'PSET %s' % _p(x, y), 'x': ext, 'big': big})
-        s = draw(_draw_string(state))
-        ops.append({'k': 'draw', 't': 'DRAW "%s"' % s, 'x': True,
-                    'big': False})
+        ops.append({'k': 'draw', 't': 'DRAW "%s"' % _draw_string(r, state), 'x': True, 'big': False})
         return ops
     if kind == 'getput':
-        # GET from inside the viewport (mostly), PUT anywhere
+        # GET from inside the viewport (mostly), PUT fitting / straddling an edge / anywhere
         a, b, sa, sb = state.axis_bounds(0)
         c, d, sc, sd = state.axis_bounds(1)
-        gx0 = draw(st.integers(a, b))
-        gy0 = draw(st.integers(c, d))
-        gx1 = min(b + draw(st.integers(0, 1)), gx0 + draw(st.integers(0, 40)))
-        gy1 = min(d + draw(st.integers(0, 1)), gy0 + draw(st.integers(0, 24)))
+        gx0, gy0 = r.int(a, b), r.int(c, d)
+        over = 1 if r.one_in(10) else 0
+        gx1 = min(b + over, gx0 + r.int(0, 40))
+        gy1 = min(d + over, gy0 + r.int(0, 24))
+        w, h = gx1 - gx0 + 1, gy1 - gy0 + 1
         ops = [{'k': 'get', 't': 'GET %s-%s,A%%' % (
             _p(state.to_logical(0, gx0), state.to_logical(1, gy0)),
             _p(state.to_logical(0, gx1), state.to_logical(1, gy1)))}]
-        for _ in range(draw(st.integers(1, 3))):
-            x, y, ext, big = draw(_pt(state))
-            if draw(st.booleans()):
-                # aim at the far edges so that the sprite straddles them
-                x = state.to_logical(0, b - draw(st.integers(-1, gx1 - gx0 + 1)))
-                ext = True
-            if draw(st.booleans()):
-                y = state.to_logical(1, d - draw(st.integers(-1, gy1 - gy0 + 1)))
-                ext = True
-            verb = draw(st.sampled_from(VERBS))
+
+        def place(axis, lo, hi, size):
+            how = r.pick(['fit', 'fit', 'fit', 'hi', 'hi', 'hi', 'lo', 'pt', 'pt'])
+            if how == 'fit' and hi - size + 1 >= lo:
+                return state.to_logical(axis, r.int(lo, hi - size + 1)), False, False
+            if how == 'hi' or how == 'fit':
+                # first corner inside, second corner beyond the far edge
+                return state.to_logical(axis, r.int(max(lo, hi - size + 2), hi)), True, False
+            if how == 'lo':
+                return state.to_logical(axis, lo - r.int(1, size)), True, False
+            v, cls = _axis(r, state, axis)
+            return v, cls != 'in', cls == 'ovf'
+        for _ in range(r.int(1, 3)):
+            x, ex, bx = place(0, a, b, w)
+            y, ey, by = place(1, c, d, h)
+            verb = r.pick(VERBS)
             ops.append({'k': 'put', 't': 'PUT %s,A%%%s' % (_p(x, y), '' if verb is None
                                                            else ',' + verb),
-                        'x': ext, 'big': big})
+                        'x': ex or ey, 'big': bx or by})
         return ops
     raise ValueError(kind)
 
 
-KINDS = (['view'] * 2 + ['window'] * 2 + ['page'] * 2 + ['pset', 'preset'] + ['line'] * 5 +
+KINDS = (['view'] * 2 + ['window'] * 2 + ['page'] * 2 + ['pset', 'preset'] + ['line'] * 6 +
          ['circle'] * 4 + ['paint'] * 4 + ['draw'] * 4 + ['getput'] * 3)
 
+PAGE_PAIRS = [(0, 0), (1, 1), (1, 0), (0, 1), (2, 1), (3, 0), (1, 2)]
 
-@st.composite
-def strat_case(draw):
-    mname = draw(st.sampled_from(MODE_WEIGHTED))
+
+def build_case(mname, seed, n):
+    """Deterministic history of at most n statements (a prefix of the seed's full history)."""
     mode = MODE_BY_NAME[mname]
-    ap, vp = draw(st.sampled_from([(0, 0), (1, 1), (1, 0), (0, 1), (2, 1), (3, 0), (1, 2)]))
+    r = _R(seed)
+    ap, vp = r.pick(PAGE_PAIRS)
+    bg = r.pick([None, r.int(0, 1000)])
     state = _State(mode.width, mode.height)
     ops = []
-    if draw(st.integers(0, 4)) > 0:
-        ops.append(draw(_view_op(state, mode.nattr, force_small=True)))
-    n = draw(st.integers(1, 10))
-    while len(ops) < n:
-        kind = draw(st.sampled_from(KINDS))
-        ops.extend(draw(_ops(state, mode.nattr, kind, 8)))
-    bg = draw(st.one_of(st.none(), st.integers(0, 1000)))
-    return {'mode': mname, 'ap': ap, 'vp': vp, 'bg': bg, 'ops': ops[:12]}
+    if not r.one_in(5):
+        ops.append(_view_op(r, state, mode.nattr, force_small=True))
+    while len(ops) < 12:
+        ops.extend(_ops(r, state, mode.nattr, r.pick(KINDS), 8))
+    return {'mode': mname, 'ap': ap, 'vp': vp, 'bg': bg, 'ops': ops[:max(1, n)]}
 
 
-@st.composite
-def strat_text(draw):
-    cfg = draw(st.integers(0, len(gfxutil.TEXT_CONFIGS) - 1))
+def build_text_case(cfg, seed, n):
     width = gfxutil.TEXT_CONFIGS[cfg][1]['text_width']
-    state = _State(width * 8, 200)
+    r = _R(seed)
     ops = []
-    n = draw(st.integers(1, 8))
-    while len(ops) < n:
-        kind = draw(st.sampled_from([k for k in KINDS if k != 'page']))
-        if kind == 'view' and draw(st.booleans()):
-            # in text mode the generator's viewport would never take effect: keep full screen
-            continue
-        new = draw(_ops(state, 4, kind, 1))
-        state.view = (0, 0, state.W - 1, state.H - 1)
-        state.vscreen = True
-        state.win = None
-        ops.extend(new)
+    while len(ops) < 10:
+        state = _State(width * 8, 200)
+        if r.one_in(3):
+            state.win = (0, 0, 100, 100, r.coin())
+        kind = r.pick([k for k in KINDS if k != 'page'])
+        ops.extend(_ops(r, state, 4, kind, 1))
     for op in ops:
         op.setdefault('big', False)
-    return {'text': cfg, 'ops': ops[:10]}
+    return {'text': cfg, 'ops': ops[:max(1, n)]}
+
+
+def strat_case():
+    return st.builds(build_case, st.sampled_from(MODE_WEIGHTED), st.integers(0, 2 ** 31),
+                     st.integers(1, 12))
+
+
+def strat_text():
+    return st.builds(build_text_case, st.integers(0, len(gfxutil.TEXT_CONFIGS) - 1),
+                     st.integers(0, 2 ** 31), st.integers(1, 10))
 
 
 def units(tier):
     return [
         Unit('histories', 'hyp', shards=16,
-             examples=gfxutil.scaled({'quick': 110, 'thorough': 4000}), strategy=strat_case),
+             examples=gfxutil.scaled({'quick': 110, 'thorough': 3000}), strategy=strat_case),
         Unit('textmode', 'hyp', shards=16,
              examples=gfxutil.scaled({'quick': 25, 'thorough': 600}), strategy=strat_text),
     ]
 
 
 REGRESSIONS = [
-    # open finding page.switch-with-view.AssertionError (findings_proposed/C30.json)
+    # finding page.switch-with-view.AssertionError (findings_proposed/C30.json), fixed fc57e203
     {'mode': 'ega/7', 'ap': 0, 'vp': 0, 'bg': None, 'ops': [
         {'k': 'view', 't': 'VIEW (1,1)-(10,10)', 'rect': [1, 1, 10, 10]},
         {'k': 'page', 't': 'SCREEN ,,1,0', 'ap': 1, 'vp': 0}]},
@@ -567,4 +593,20 @@ REGRESSIONS = [
                         {'k': 'view', 't': 'VIEW (1,1)-(5,5)', 'rect': [1, 1, 5, 5], 'big': False}]},
 ]
 
-KILLS = []
+KILLS = [
+    'final code, VERIF_REPO=<scratch> ./check C30 (VERIF_GFX_SCALE=0.15): _convert_slice x1 clamp removed -> exit 1, clip.linebf (shrunk to VIEW SCREEN + one LINE ,BF)',
+    'in-process screen (same check_case/strategies as ./check, stops at first failure; Hypothesis units only unless noted)',
+    "GraphicsViewPort._convert_slice 'x1 = min(x1, xmax+1)' removed -> clip.linebf (case #53)",
+    "_convert_slice 'y1 = min(y1, ymax+1)' removed -> clip.linebf ; 'x0 = max(x0, xmin)' -> max(x0, 0) -> clip.linebf",
+    'GraphicsViewPort.contains using the screen bounds -> clip.line, clip.circle, clip.draw',
+    'contains(): get_bounds always returns the absolute rect -> clip.line/clip.circle, escaped.IndexError',
+    "single-pixel path: 'if not self.contains(..): return empty slice' removed -> escaped.IndexError@bytematrix, clip.draw",
+    'Graphics.set_page not re-pointing graph_view -> page.view, page.circle, page.line ...',
+    'Display.set_page not calling graphics.set_page -> page.*',
+    '_flood_fill reading its bounds from the screen instead of the viewport -> escaped.IndexError@bytematrix.py:__getitem__ (PAINT with seed outside the viewport)',
+    'put_: second-corner containment check removed -> clip.put (pixel rows grow) / escaped.AssertionError@bytematrix',
+    '_set_view border drawn 2 pixels out -> clip.view ; fill drawn to x1+2 -> clip.view',
+    '_draw_circle writing through page coordinates instead of graph_view -> clip.circle',
+    'text-mode guards removed from circle_, draw_, view_, _pset_preset -> text.err.<kind>, text.changed.<kind>, text.buffer, escaped.TypeError@graphics.py:_draw',
+    'revert of fix fc57e203 (set_page assertion on viewport size) -> page.switch-with-view.AssertionError (case #3)',
+]
